@@ -123,10 +123,16 @@ class GraphDriver:
             elif op == 'AddGAttacker':
                 a = Attacker(name='ga' if act['reqId'] == 99 else 'gb')
                 self.bind(act['h'], a)
+                kw = {}
                 if act['reqId'] != 99:
-                    G.add_attacker(a, attacker_id=act['reqId'])
-                else:
-                    G.add_attacker(a)
+                    kw['attacker_id'] = act['reqId']
+                if act.get('e') or act.get('r'):
+                    # ids of the named steps; a reached step is listed twice (compromising twice changes nothing) and the
+                    # entry point is given as a string, as the file loader does
+                    kw['entry_points'] = [str(self.objs[h].id) for h in act.get('e', [])]
+                    rs = [self.objs[h].id for h in act.get('r', [])]
+                    kw['reached_attack_steps'] = rs + rs[:1]
+                G.add_attacker(a, **kw)
             elif op == 'RemoveGAttacker':
                 G.remove_attacker(self.objs[act['h']])
             elif op == 'Compromise':
@@ -280,9 +286,13 @@ class GraphDriver:
         if te:
             self.extra.append(('roundtrip_type_' + te[0][1], {'errors': [list(x) for x in te[:5]]}))
         if act['withModel']:
+            had_asset = {n.id for n in G.nodes if n.asset is not None}
             for n in L.nodes:
-                if n.asset is None or self.model.get_asset_by_name(str(n.asset.name)) is not n.asset:
+                if n.id in had_asset and (n.asset is None or self.model.get_asset_by_name(str(n.asset.name)) is not n.asset):
                     self.extra.append(('roundtrip_asset_binding', {'node': n.full_name}))
+                    break
+                if n.id not in had_asset and n.asset is not None:
+                    self.extra.append(('roundtrip_asset_invented', {'node': n.full_name, 'asset': str(n.asset.name)}))
                     break
         # bind the loaded objects: same id -> handle + off
         old = {n.id: self.hof(n) for n in G.nodes}
